@@ -203,7 +203,7 @@ func VerifH_C16_jsonp() {
 	ctx, w := newCtx("GET", "3")
 	ctx.Query().Set("j", j)
 	t.OnRequest(ctx)
-	payload := verif.BytesN(verif.Int(0, 2))
+	payload := verif.BytesN(verif.Int(0, 3))
 	cb := 0
 	t.DoWrite(ctx, types.NewStringBuffer(append([]byte(nil), payload...)), nil, func(error) { cb++ })
 	verif.Settle()
@@ -223,6 +223,7 @@ func VerifH_C16_jsonp() {
 	verif.Assert(strings.HasSuffix(body, ");"), "foot is );")
 	if strings.HasPrefix(body, head) && strings.HasSuffix(body, ");") && len(body) >= len(head)+2 {
 		lit := body[len(head) : len(body)-2]
+		verif.Assert(scriptSafe(lit), "the literal is safe to embed in a script (no raw U+2028/U+2029, <, >, &, control characters)")
 		s, ok := verif.JSONText([]byte(lit))
 		verif.Assert(ok, "the middle is one JSON string literal")
 		if ok {
@@ -322,4 +323,18 @@ func VerifH_C16_poll_cycle_v3() {
 		}
 	}
 	verif.Assert(w.hdr.Get("Content-Type") == "text/plain; charset=UTF-8", "text payload")
+}
+
+// scriptSafe: what a JavaScript string literal embedded in a <script> must not contain raw.
+func scriptSafe(lit string) bool {
+	for i := 0; i < len(lit); i++ {
+		c := lit[i]
+		if c < 0x20 || c == '<' || c == '>' || c == '&' {
+			return false
+		}
+		if c == 0xe2 && i+2 < len(lit) && lit[i+1] == 0x80 && (lit[i+2] == 0xa8 || lit[i+2] == 0xa9) {
+			return false
+		}
+	}
+	return true
 }
